@@ -123,8 +123,12 @@ def read_bytes(
             # The endian-specific codecs do not consume the byte-order
             # mark; make sure it never becomes part of the document.
             document = body[len(bom):].decode(encoding)
+            if document.startswith("<?xml"):
+                return document, encoding, "text/xml"
+            # Report the content type of a meta element like the same
+            # document supplied as a string would.
             return document, encoding, \
-                "text/xml" if document.startswith("<?xml") else None
+                detect_encoding(document, encoding)[0]
 
         if prefix != encode_string('<?xml') and body.startswith(prefix):
             return body.decode(encoding), encoding, "text/xml"
